@@ -7,7 +7,7 @@ NEEDS = ('rqmc',)
 def run(tier, seed):
     res = common.Result('model_checking')
     args = ['5', '2', '3', '6'] if tier == 'quick' else ['7', '3', '3', '7']
-    doc = common.run_engine([common.RQMC, 'c02'] + args)
+    doc = common.run_engine_parts([common.RQMC, 'c02'] + args)
     common.merge_engine(res, doc)
     cov = res.coverage
     cov['bounds'] = {k: doc[k] for k in ('max_file_len', 'max_context', 'max_fuzz_limit', 'hunk_shapes', 'two_hunk_files')}
